@@ -12,14 +12,18 @@ var hostileVals = []string{"0", "1", "2", "3", "-1", "(0-1)", "(0-5)", "1.5", "0
 	"99999999999999999999", "4611686018427387904", "9223372036854775807", "(0-9223372036854775807)", "(1/0)", "x", "无", "true", "d", "2d", "d6",
 	"`{1}`", "(2d6)", "[1,'a',[2]]", "[[]]", "20", "21", "100", "1000", "20001", "512", "513", "abs", "[1,2].kh", "this", "&x", "1e3", ".5"}
 
+// container-flavoured values for receiver / indexed positions
+var hostileContainers = []string{"[]", "[]", "[1,2]", "[1,'a',[2]]", "[[]]", "[3,1,2]", "{}", "{'a':1}", "'abc'", "''", "x", "null", "1", "(2d6)", "[1..3]", "`{1}`"}
+
 var hostileOps = []string{"+", "-", "*", "/", "%", "**", "^", "??", "<", "<=", "==", "!=", ">=", ">", "&&", "||", "&", "|", "＋", "－", "＊", "／"}
 
 var hostileTemplates = []string{
 	"{v}d{v}", "{v}d{v}k{v}", "{v}d{v}q{v}", "d{v}kh{v}", "{v}d{v}kl{v}", "{v}d{v}dl{v}min{v}", "{v}d{v}dh{v}", "{v}d{v}max{v}", "d{v}优势", "d{v}劣势", "{v}d", "{v}dk{v}", "d", "{v}d{v}d{v}",
 	"b{v}", "p{v}", "b", "p", "{v}a{v}", "{v}a{v}m{v}k{v}", "{v}a{v}q{v}", "a{v}", "{v}a{v}m{v}", "{v}c{v}", "{v}c{v}m{v}", "f",
-	"{v}.kh({v})", "[{v},{v}].kl({v})", "{v}.sum()", "{v}.rand()", "{v}.randSize({v})", "{v}.shuffle()", "{v}.push({v})", "{v}.pop()", "{v}.shift()", "{v}.len()",
-	"{v}.keys()", "{v}.values()", "{v}.items()", "{v}.compute()", "[{v},{v}]kh{v}", "[{v}]kl",
-	"{v}[{v}]", "{v}[{v}:{v}]", "{v}[:{v}]", "{v}[{v}:]", "x={v}; x[{v}]={v}", "x={v}; x[{v}:{v}]={v}", "x={v}; x.y={v}", "x={v}; x.y", "{v}({v})", "{v}({v},{v})", "{v}()",
+	"{c}.kh({v})", "[{v},{v}].kl({v})", "{c}.sum()", "{c}.rand()", "{c}.randSize({v})", "{c}.shuffle()", "{c}.push({v})", "{c}.pop()", "{c}.shift()", "{c}.len()",
+	"{c}.keys()", "{c}.values()", "{c}.items()", "{v}.compute()", "[{v},{v}]kh{v}", "[{v}]kl", "x={c}; x.pop(); x.pop(); x", "x={c}; x.shift(); x.push(x.pop())",
+	"{c}[{v}]", "{c}[{v}:{v}]", "{c}[:{v}]", "{c}[{v}:]", "x={c}; x[{v}]={v}", "x={c}; x[{v}:{v}]={v}", "x={c}; x.y={v}", "x={c}; x.y", "{v}({v})", "{v}({v},{v})", "{v}()",
+	"x='aaaaaaaa'; i=0; while i<{n} { x=`{x}{x}`; i=i+1 }", "x='ab'; i=0; while i<{n} { x=`{x}` + x; i=i+1 }; x",
 	"{v} {op} {v}", "{v} {op} {v} {op} {v}", "-{v}", "+{v}", "{v} ? {v} : {v}", "{v} ? {v}, {v} ? {v}",
 	"ceil({v})", "floor({v})", "round({v})", "abs({v})", "toInt({v})", "toFloat({v})", "toStr({v})", "toBool({v})", "repr({v})", "load({v})", "loadRaw({v})", "store({v},{v})", "typeId({v})", "dir({v})",
 	"[{v}..{v}]", "[{v},{v},{v}]", "{{v}:{v}}", "{'k':{v}, 'k2':{v}}", "`a{{v}}b{% {v} %}`", "x = {v}", "&x = {v}; x", "&x = {v}; &x.k = {v}; x.k", "this.y = {v}", "x={v}; y=x; y",
@@ -55,6 +59,9 @@ func (g *G) Hostile() (src string, class string) {
 		switch {
 		case strings.HasPrefix(tpl[i:], "{v}"):
 			sb.WriteString(g.hv())
+			i += 3
+		case strings.HasPrefix(tpl[i:], "{c}"):
+			sb.WriteString(hostileContainers[g.intn(len(hostileContainers), "hc")])
 			i += 3
 		case strings.HasPrefix(tpl[i:], "{op}"):
 			sb.WriteString(hostileOps[g.intn(len(hostileOps), "hop")])
